@@ -228,9 +228,9 @@ class Sim:
             sh = st.sh
             sh.current_job = job.label
             if overlay:
-                ov = job.overlays.get(st._sid)
+                ov = job.overlays.get(id(st))
                 if ov is None:
-                    ov = job.overlays[st._sid] = _Overlay(job, st)
+                    ov = job.overlays[id(st)] = _Overlay(job, st)
                 sh.overlay = ov
             else:
                 sh.overlay = None
